@@ -113,7 +113,14 @@ def run_cases(cases, subcmd="run", env=None, shards=None, args=(), variant="plai
               wall_timeout=3600, keep=False):
     """Run `cases` (list of dicts with unique 'id') through `vharness <subcmd>`, sharded.
     Returns (results_by_id, meta)."""
+    # VERIF_VARIANT=asan runs the same workload on the AddressSanitizer build of the harness (a report aborts the child:
+    # status signal:6, stderr "ERROR: AddressSanitizer: ..."); the address-space cap is lifted (shadow memory)
+    variant = os.environ.get("VERIF_VARIANT", variant)
     binp = build(variant)
+    if variant == "asan":
+        cases = [dict(c, mem_mb=0, timeout_ms=int(c.get("timeout_ms", 30000)) * 4) for c in cases]
+        env = dict(env or {})
+        env.setdefault("ASAN_OPTIONS", "detect_leaks=0:abort_on_error=1:halt_on_error=1:detect_stack_use_after_return=0:allocator_may_return_null=1")
     shards = shards or NCPU
     shards = max(1, min(shards, len(cases)))
     d = scratch_dir(tag)
